@@ -30,7 +30,7 @@ func init() {
 
 func runC17(x *Ctx) {
 	x.C.Rule("C17.R1", "variant pipelines match the API names; byte/stream variants agree", 24)
-	x.C.Rule("C17.R2", "entries enter a Reader only through addToken(FromSealed)", 2)
+	x.C.Rule("C17.R2", "entries enter a Reader only through FromSealed; iterators hand out key and value of one step", 3)
 	x.C.Rule("C17.R3", "all-or-nothing reading", 7)
 	x.C.Rule("C17.R4", "CAR block integrity", 3)
 	x.C.Rule("C17.R5", "writers cover the whole map and report every failed write", 4)
@@ -209,6 +209,7 @@ func readerDoors(x *Ctx) map[string]*ssa.Function {
 // is written out there), it is the token returned by token.FromSealed(data) under the CID the same call
 // returned, on a path that knows the call to have succeeded.
 func singleDoor(x *Ctx) {
+	iteratorPairs(x)
 	readerT := load.Module + "/pkg/container.Reader"
 	doors := readerDoors(x)
 	var names []string
@@ -502,4 +503,80 @@ func carWriterAbort(x *Ctx, rule string) {
 			x.C.Obl(rule, "car:abort-leaves-error", x.pos(y), "when writing a block fails (or the iterator yields an error) the loop stops and a non-nil error reaches writeCar's result", ok, detail)
 		}
 	}
+}
+
+// iteratorPairs (C17.R2): the iterators of a Reader (GetAllDelegations, GetAllInvocations, whatever helper they
+// share) hand out (CID, token) pairs. Both halves of a pair come from the same step over the map - key and
+// value of one range step, or the value looked up under that very key - so that the CID yielded is the CID the
+// token was stored under. Two lists built separately (and sorted separately) do not qualify.
+func iteratorPairs(x *Ctx) {
+	var all []*ssa.Function
+	var add func(f *ssa.Function)
+	add = func(f *ssa.Function) {
+		all = append(all, f)
+		for _, a := range f.AnonFuncs {
+			add(a)
+		}
+	}
+	for _, f := range x.P.ModuleFuncs() {
+		if x.P.IsLibrary(f) && x.P.PkgPathOf(f) == load.Module+"/pkg/container" && f.Parent() == nil {
+			add(f)
+		}
+	}
+	root := func(v ssa.Value) (next *ssa.Next, idx int, lookup *ssa.Lookup) {
+		for depth := 0; depth < 8 && v != nil; depth++ {
+			switch t := v.(type) {
+			case *ssa.TypeAssert:
+				v = t.X
+			case *ssa.ChangeType:
+				v = t.X
+			case *ssa.ChangeInterface:
+				v = t.X
+			case *ssa.MakeInterface:
+				v = t.X
+			case *ssa.Extract:
+				if n, ok := t.Tuple.(*ssa.Next); ok {
+					return n, t.Index, nil
+				}
+				v = t.Tuple
+			case *ssa.Lookup:
+				return nil, 0, t
+			default:
+				return nil, 0, nil
+			}
+		}
+		return nil, 0, nil
+	}
+	n, bad := 0, ""
+	for _, f := range all {
+		if len(f.Params) == 0 {
+			continue
+		}
+		y := f.Params[len(f.Params)-1]
+		ys, ok := y.Type().Underlying().(*types.Signature)
+		if !ok || ys.Params().Len() != 2 || ys.Results().Len() != 1 || !strings.HasSuffix(ys.Params().At(0).Type().String(), "go-cid.Cid") {
+			continue
+		}
+		for _, b := range f.Blocks {
+			for _, in := range b.Instrs {
+				c, ok := in.(*ssa.Call)
+				if !ok || c.Call.Value != ssa.Value(y) || len(c.Call.Args) != 2 {
+					continue
+				}
+				n++
+				kn, ki, _ := root(c.Call.Args[0])
+				vn, vi, vl := root(c.Call.Args[1])
+				switch {
+				case kn != nil && vn == kn && ki == 1 && vi == 2:
+				case kn != nil && ki == 1 && vl != nil:
+					if ln, li, _ := root(vl.Index); ln != kn || li != 1 {
+						bad += x.P.Pos(c.Pos()) + ": the token yielded is looked up under another key than the CID yielded with it\n"
+					}
+				default:
+					bad += x.P.Pos(c.Pos()) + ": the CID and the token yielded are not the key and the value of one step over the container: the pair can mismatch\n"
+				}
+			}
+		}
+	}
+	x.C.Obl("C17.R2", "iterator-pairs", "-", fmt.Sprintf("each of the %d yields of a (CID, token) iterator hands out the key and the value of one step over the map", n), bad == "" && n >= 2, dedupLines(bad))
 }
